@@ -9,7 +9,7 @@ from flamapy.metamodels.fm_metamodel.operations.fm_estimated_configurations_numb
 
 from .. import refsem as R
 from ..known import known
-from .common import cards_conditions, indexed_shapes, totuple
+from .common import cards_conditions, indexed_shapes, totuple, pair_batch, replay_pair  # noqa: F401
 
 ID = 'C13'
 LEVEL = 'model_checking'
@@ -128,6 +128,16 @@ def batches(tier, seed):
     return b
 
 
+_orig_batches = batches
+
+
+def batches(tier, seed):  # noqa: F811
+    n = 3 if tier == 'quick' else 4
+    total = len(R.shapes(n)) * (len(R.shapes(n)) - 1)
+    step = total // 4 + 1
+    return _orig_batches(tier, seed) + [('batch_pairs', [n, lo, lo + step, seed + lo]) for lo in range(0, total, step)]
+
+
 def info(tier):
     return {
         'assumptions': ['Boolean models built through the public constructors; 0 <= min <= max <= k, max >= 1 per relation',
@@ -141,3 +151,7 @@ def info(tier):
             'stubs': [],
         },
     }
+
+
+def batch_pairs(max_n, lo, hi, seed):
+    return pair_batch(__name__, 'exact', max_n, lo, hi, seed, 'two-models-in-sequence')
